@@ -196,8 +196,8 @@ func vpC29BuildScenario(salt uint64, epoch, ts uint64, g int, withPledging bool,
 }
 
 func TestVP_C29_hours(t *testing.T) {
-	c := kit.New(t, "C29", "rapid: ts = epoch + day(0..3650)*24h + hour(0..23)*1h + offset {0, 1h-1ns, random}; hour gates checkConsensusAcceptHour/checkConsensusPledgeHour compared in both directions with independent whole-second hour arithmetic; the operation validators (remove, accept, cancel, pledge, custodian update) run on a small membership with a pledging node aged {<12h,12h,1d,7d,>7d}: success implies the hour lies inside the operation's window; non-trivial = an operation succeeded or was refused only for its hour; distinct by (day,hour,offset,age)")
-	c.Require("remove-ok", "accept-ok", "cancel-ok", "pledge-ok", "custodian-gate-passed", "hour-refused", "edge-offset")
+	c := kit.New(t, "C29", "rapid: ts = epoch + day(0..3650)*24h + hour(0..23)*1h + offset {0, 1h-1ns, random}; hour gates checkConsensusAcceptHour/checkConsensusPledgeHour compared in both directions with independent whole-second hour arithmetic; the operation validators (remove, accept, cancel, pledge, custodian update) run on a small membership with a pledging node aged {<12h,12h,1d,7d,>7d}: success implies the hour lies inside the operation's window; a timestamped removal snapshot on the elected chain is validated once by an observer and once by the elected node itself and must get the identical verdict; non-trivial = an operation succeeded or was refused only for its hour; distinct by (day,hour,offset,age)")
+	c.Require("remove-ok", "accept-ok", "cancel-ok", "pledge-ok", "custodian-gate-passed", "hour-refused", "edge-offset", "proposer-vs-observer")
 	kit.SetChecks(kit.N(6000, 600000))
 	tx := common.NewTransactionV5(common.XINAssetId)
 	tx.AddInput(crypto.Blake3Hash([]byte("vpC29-in")), 0)
@@ -250,6 +250,41 @@ func TestVP_C29_hours(t *testing.T) {
 			}
 			classes = append(classes, "hour-refused")
 			interesting = true
+		}
+
+		// a timestamped removal snapshot gets the same verdict from every node,
+		// the elected proposer included ("the same on every node": the election
+		// is a function of membership and snapshot time, not of who evaluates it)
+		if ts > epoch {
+			eid := plain.node.electSnapshotNode(common.TransactionTypeNodeRemove, ts)
+			s := &common.Snapshot{Version: common.SnapshotVersionCommonEncoding, NodeId: eid, Timestamp: ts}
+			verdict := func(self crypto.Hash) string {
+				saved := plain.node.IdForNetwork
+				plain.node.IdForNetwork = self
+				defer func() { plain.node.IdForNetwork = saved }()
+				var err error
+				if p := vpKCatch(func() { err = plain.node.validateNodeRemoveSnapshot(s, ver, true) }); p != nil {
+					return fmt.Sprint("panic: ", p)
+				}
+				if err == nil {
+					return "accepted"
+				}
+				return err.Error()
+			}
+			var observer crypto.Hash
+			for _, cn := range plain.node.NodesListWithoutState(ts, true) {
+				if cn.IdForNetwork != eid {
+					observer = cn.IdForNetwork
+				}
+			}
+			vo, vp := verdict(observer), verdict(eid)
+			if vo != vp {
+				rt.Fatalf("removal snapshot of %s at epoch+%d: observer %s says %q, the elected proposer itself says %q", eid, ts-epoch, observer, vo, vp)
+			}
+			if strings.Contains(vo, "only by") {
+				rt.Fatalf("the node elected for the removal at epoch+%d is refused as not elected: %s", ts-epoch, vo)
+			}
+			classes = append(classes, "proposer-vs-observer")
 		}
 
 		if pl.pledging != nil {
